@@ -119,6 +119,39 @@ func analyseDispatch(w *World) *dispatchInfo {
 	if d.mainLook == nil {
 		anchorFail("the non-lazy lookup of ServeHTTP")
 	}
+	// a handler dispatch moved into a helper (helper(tree, c, route, tsr) calling route.hall(c)) is not followed by the
+	// dispatch rules: they would need the context state at the helper's entry. No verdict rather than a wrong one.
+	eachInstr(d.fn, func(in ssa.Instruction) {
+		site, ok := in.(*ssa.Call)
+		if !ok || site.Call.StaticCallee() == nil {
+			return
+		}
+		h := site.Call.StaticCallee()
+		if !w.InModule(h) || len(h.Blocks) == 0 {
+			return
+		}
+		passes := false
+		for _, a := range site.Call.Args {
+			if isCtx(a) {
+				passes = true
+			}
+		}
+		if !passes {
+			return
+		}
+		eachInstr(h, func(in2 ssa.Instruction) {
+			c2, ok := in2.(*ssa.Call)
+			if !ok || c2.Call.StaticCallee() != nil || c2.Call.IsInvoke() {
+				return
+			}
+			if _, f, ok := loadedField(c2.Call.Value); ok {
+				_, isSpecial := d.scopeOfField[f]
+				if f == hall || isSpecial {
+					anchorFail("handler dispatch inside ServeHTTP (the call through %s sits in helper %s, which the dispatch rules do not follow)", f.Name(), h.Name())
+				}
+			}
+		})
+	})
 	// Allow loops moved into a helper of the module: the lazy lookup is found there, the call in ServeHTTP stands for it
 	d.lazySite = map[*ssa.Call]*ssa.Call{}
 	eachInstr(d.fn, func(in ssa.Instruction) {
